@@ -30,10 +30,11 @@ type c19Case struct {
 	Mem    bool         `json:"mem,omitempty"`
 	Big    int          `json:"big,omitempty"`   // xattr value length injected into one entry (framing sweep)
 	BigAt  int          `json:"bigat,omitempty"` // index of that entry in path order
+	Merge  bool         `json:"merge,omitempty"`
 }
 
 func (c c19Case) String() string {
-	return fmt.Sprintf("src=%s select=%v prior=%s mem=%v big=%d@%d", c.Src, c.Select, c.Prior, c.Mem, c.Big, c.BigAt)
+	return fmt.Sprintf("src=%s select=%v prior=%s mem=%v big=%d@%d merge=%v", c.Src, c.Select, c.Prior, c.Mem, c.Big, c.BigAt, c.Merge)
 }
 
 func parseListing(b []byte) ([]*types.Stat, error) {
@@ -106,7 +107,7 @@ func judgeC19(c c19Case) (string, string) {
 		return "infra", err.Error()
 	}
 	priorSnap, _ := fsmodel.Snapshot(dst)
-	opt := fsutil.ReceiveOpt{MetadataOnly: func(p string, st *types.Stat) bool { return sel[p] }}
+	opt := fsutil.ReceiveOpt{Merge: c.Merge, MetadataOnly: func(p string, st *types.Stat) bool { return sel[p] }}
 	res := xfer.Run(sfs, dst, opt, nil)
 	if res.TimedOut {
 		return "timeout", "transfer timed out"
@@ -158,6 +159,16 @@ func judgeC19(c c19Case) (string, string) {
 		if need[n.Path] && n.Path != listingName {
 			want = append(want, n)
 		}
+	}
+	if c.Merge {
+		// nothing of the old destination is removed unless the source replaces it
+		var keep fsmodel.Tree
+		for _, n := range priorSnap {
+			if n.Path != listingName {
+				keep = append(keep, n)
+			}
+		}
+		want = overlay(keep, want)
 	}
 	var got fsmodel.Tree
 	for _, n := range after {
@@ -233,6 +244,9 @@ func c19Cases(tier string) []c19Case {
 					priors = []string{"empty", "copy", "listing", "symlink", "stale"}
 				}
 				for _, pr := range priors {
+					if pr != "empty" && pr != "copy" {
+						out = append(out, c19Case{Src: t, Select: sel, Prior: pr, Merge: true})
+					}
 					out = append(out, c19Case{Src: t, Select: sel, Prior: pr})
 					if pr == "empty" && mi == 0 {
 						out = append(out, c19Case{Src: t, Select: sel, Prior: pr, Mem: true})
